@@ -12,6 +12,7 @@
 """
 import ast
 import keyword
+import re
 
 import numpy as np
 
@@ -315,6 +316,8 @@ def run(run: core.Run, tier: str):
       continue   # int('1_0') accepts underscores, not modelled
     if s.count("(") == 0:
       continue
+    if re.search(r"[eE][+-]?[0-9]{4,}", s):
+      continue   # overflows to inf / underflows in Python; the model computes 10^e exactly
     junk.append(s)
   jl = [{"op": "parse", "s": s} for s in junk]
   for s, o in zip(junk, core.run_driver("C10", jl)):
